@@ -339,7 +339,8 @@ def run(chk: Check) -> None:
     if inv is not None:
         src = norm(inv.node)
         rets_false = [n for n in ast.walk(inv.node) if isinstance(n, ast.Return) and isinstance(n.value, ast.Constant) and n.value.value is False]
-        if "metastore.remove(get_meta_ex_name(meta_file))" in src and rets_false:
+        from ..pattern import has
+        if (has(inv.node, "$_.remove(get_meta_ex_name(meta_file))") or has(inv.node, "$x = get_meta_ex_name(meta_file)", "$_.remove($x)")) and rets_false:
             r4.ok("invalidate_cache_meta_ex removes get_meta_ex_name(meta_file) through the store and reports failure", inv.loc())
         else:
             r4.violation("invalidate_cache_meta_ex removes get_meta_ex_name(meta_file) through the store and reports failure", inv.loc(), "helper no longer removes the meta_ex record of this meta file or hides failures")
@@ -465,7 +466,8 @@ def run_shard(chk: Check, ix) -> None:
     gmx = ix.func("mypy.build.get_meta_ex_name")
     t = norm(gmx.node)
     key = "get_meta_ex_name replaces only the middle component after the prefix"
-    if "rsplit('.', maxsplit=2)" in t and "parts[1] = 'meta_ex'" in t and "'.'.join(parts)" in t:
+    from ..pattern import has as _has
+    if _has(gmx.node, "$p = $_.rsplit('.', maxsplit=2)", "$p[1] = 'meta_ex'", "return '.'.join($p)"):
         r5.ok(key, gmx.loc())
     else:
         r5.violation(key, gmx.loc(), "the meta_ex name is no longer `<prefix>.meta_ex.<ext>` derived from the meta name")
